@@ -444,7 +444,7 @@ func (w *World) evalConfirm(n *Node, cur *Snap, v *accountant.Vertex, op OpInfo)
 	case v.Transaction.Spice.Currency == 0 && v.Transaction.Spice.SupplementaryCurrency == 0:
 		ev.Exempt = "no-spice"
 		return ev
-	case cur.Trusted[v.SignerPublicAddress]:
+	case cur.Trusted[v.SignerPublicAddress] && n.TrustCfg[v.SignerPublicAddress]:
 		// trusted on this node now, i.e. when the vertex was validated (trust changes are operations of their own)
 		ev.Exempt = "trusted"
 		return ev
